@@ -1,64 +1,98 @@
 #!/usr/bin/env python3
-"""tools/fuzz_tier.py <Cxx> <seed> <runs>  -- coverage-guided campaign for the thorough tier.
+"""tools/fuzz_tier.py <Cxx> <seed> <runs> [prop_runs]  -- coverage-guided campaigns for the thorough tier.
 
-Runs `cargo +nightly fuzz run <target>` on a fresh copy of the seed corpus (fixed -runs, -seed), and
-pushes every crash artifact through the deterministic oracle (`vcheck fuzz-replay`). Only a
-reproduced oracle failure is a VIOLATION; a crash that does not reproduce is inconclusive (exit 2).
-The campaign statistics are added to the evidence file written by vcheck."""
-import json, os, re, shutil, subprocess, sys, hashlib
+Two kinds of libFuzzer campaign (cargo-fuzz, ASan, debug assertions on), both with the property's oracle
+inside the target:
+  * the byte-level target of the property where one exists (tokenize, dic_compile, normalize, sentence,
+    chardef): bytes are decoded into text / file arguments;
+  * the generic structured target `prop` for every in-process property: the bytes seed the generator of the
+    property's own proptest strategy and the decoded case runs through the property's own oracle under
+    AddressSanitizer (libFuzzer is the driver, the sanitizer the added monitor; see harness/src/fuzz.rs for
+    why proptest's pass-through RNG cannot be used).
+Each runs on a fresh copy of its seed corpus with fixed -runs and -seed; every crash artifact is pushed
+through the deterministic oracle (`vcheck fuzz-replay`). Only a reproduced oracle failure is a VIOLATION
+(exit 1); a crash that does not reproduce is inconclusive (exit 2). Campaign statistics are added to the
+evidence file written by vcheck."""
+import json, os, re, shutil, subprocess, sys, hashlib, random
 ROOT = os.path.dirname(os.path.dirname(os.path.abspath(__file__)))
 TARGETS = {"C03": "tokenize", "C06": "dic_compile", "C07": "normalize", "C16": "sentence", "C17": "chardef"}
+NO_PROP = {"C18", "C19"}
 pid, seed, runs = sys.argv[1], int(sys.argv[2]), int(sys.argv[3])
-target = TARGETS.get(pid)
-if not target:
-    sys.exit(0)
-work = os.path.join(ROOT, "work", "fuzz-" + target)
-shutil.rmtree(work, ignore_errors=True)
-corpus = os.path.join(work, "corpus"); arts = os.path.join(work, "artifacts")
-shutil.copytree(os.path.join(ROOT, "harness", "fuzz", "seeds", target), corpus)
-os.makedirs(arts, exist_ok=True)
-env = dict(os.environ, CARGO_NET_OFFLINE="true", RUST_BACKTRACE="0", CARGO_TARGET_DIR=os.path.join(ROOT, "target", "fuzz"))
-jobs = 4
-per = max(1, runs // jobs)
-cmd = ["cargo", "+nightly", "fuzz", "run", target, corpus, "--", "-runs=%d" % per, "-seed=%d" % (seed + 1), "-len_control=0", "-max_len=600",
-       "-artifact_prefix=%s/" % arts, "-jobs=%d" % jobs, "-workers=%d" % jobs, "-print_final_stats=1"]
-p = subprocess.run(cmd, cwd=os.path.join(ROOT, "harness"), env=env, stdout=subprocess.PIPE, stderr=subprocess.STDOUT, text=True, errors="replace")
-log = ""
-for f in os.listdir(os.path.join(ROOT, "harness")):
-    if re.match(r"fuzz-\d+\.log$", f):
-        log += open(os.path.join(ROOT, "harness", f), errors="replace").read()
-        os.remove(os.path.join(ROOT, "harness", f))
-if not log:
-    log = p.stdout
-execs = sum(int(x) for x in re.findall(r"stat::number_of_executed_units:\s*(\d+)", log))
-cov = max([int(x) for x in re.findall(r"cov: (\d+)", log)] or [0])
-stats = {"target": target, "runs_requested": runs, "executed_units": execs, "max_cov": cov, "corpus_files_after": len(os.listdir(corpus)), "artifacts": []}
-rc = 0
+prop_runs = int(sys.argv[4]) if len(sys.argv) > 4 else int(os.environ.get("VERIF_FUZZ_PROP_RUNS", "24000"))
 vcheck = os.path.join(ROOT, "target", "release", "vcheck")
-for a in sorted(os.listdir(arts)):
-    src = os.path.join(arts, a)
-    data = open(src, "rb").read()
-    dst = os.path.join(ROOT, "replays", pid, "fuzz-%s-%s" % (target, hashlib.sha1(data).hexdigest()[:16]))
-    os.makedirs(os.path.dirname(dst), exist_ok=True)
-    shutil.copy(src, dst)
-    r = subprocess.run([vcheck, "fuzz-replay", target, dst], stdout=subprocess.PIPE, text=True, errors="replace")
-    stats["artifacts"].append({"file": dst, "reproduced": r.returncode == 1})
-    if r.returncode == 1:
-        print(r.stdout.strip())
-        rc = 1
+JOBS = 8
+
+
+def campaign(target, label, corpus_src, n_runs, max_len, extra_env):
+    work = os.path.join(ROOT, "work", "fuzz-" + label.replace(":", "-"))
+    shutil.rmtree(work, ignore_errors=True)
+    corpus = os.path.join(work, "corpus"); arts = os.path.join(work, "artifacts")
+    if corpus_src:
+        shutil.copytree(corpus_src, corpus)
     else:
-        print("fuzz artifact %s did not reproduce through the deterministic oracle" % dst)
-        if rc == 0:
-            rc = 2
+        # any byte string decodes to a valid case: deterministic pseudo-random seeds
+        os.makedirs(corpus)
+        rnd = random.Random(seed * 1000003 + 17)
+        for i, size in enumerate([8, 16, 32, 32, 32, 32, 48, 64]):
+            open(os.path.join(corpus, "seed-%d" % i), "wb").write(bytes(rnd.getrandbits(8) for _ in range(size)))
+    os.makedirs(arts, exist_ok=True)
+    env = dict(os.environ, CARGO_NET_OFFLINE="true", RUST_BACKTRACE="0", CARGO_TARGET_DIR=os.path.join(ROOT, "target", "fuzz"), **extra_env)
+    per = max(1, n_runs // JOBS)
+    cmd = ["cargo", "+nightly", "fuzz", "run", target, corpus, "--", "-runs=%d" % per, "-seed=%d" % (seed + 1), "-len_control=0", "-max_len=%d" % max_len,
+           "-artifact_prefix=%s/" % arts, "-jobs=%d" % JOBS, "-workers=%d" % JOBS, "-print_final_stats=1", "-rss_limit_mb=4096", "-timeout=120"]
+    p = subprocess.run(cmd, cwd=os.path.join(ROOT, "harness"), env=env, stdout=subprocess.PIPE, stderr=subprocess.STDOUT, text=True, errors="replace")
+    log = ""
+    for f in os.listdir(os.path.join(ROOT, "harness")):
+        if re.match(r"fuzz-\d+\.log$", f):
+            log += open(os.path.join(ROOT, "harness", f), errors="replace").read()
+            os.remove(os.path.join(ROOT, "harness", f))
+    if not log:
+        log = p.stdout
+    execs = sum(int(x) for x in re.findall(r"stat::number_of_executed_units:\s*(\d+)", log))
+    cov = max([int(x) for x in re.findall(r"cov: (\d+)", log)] or [0])
+    stats = {"target": label, "runs_requested": n_runs, "executed_units": execs, "max_cov": cov, "corpus_files_after": len(os.listdir(corpus)), "artifacts": []}
+    if execs == 0:
+        # the campaign did not run at all (build failure): say so instead of reporting an empty success
+        stats["note"] = "campaign did not execute: " + (p.stdout or "")[-400:]
+    rc = 0
+    for a in sorted(os.listdir(arts)):
+        src = os.path.join(arts, a)
+        data = open(src, "rb").read()
+        dst = os.path.join(ROOT, "replays", pid, "fuzz-%s-%s" % (label.replace(":", "_"), hashlib.sha1(data).hexdigest()[:16]))
+        os.makedirs(os.path.dirname(dst), exist_ok=True)
+        shutil.copy(src, dst)
+        r = subprocess.run([vcheck, "fuzz-replay", label, dst], stdout=subprocess.PIPE, text=True, errors="replace")
+        stats["artifacts"].append({"file": dst, "reproduced": r.returncode == 1})
+        if r.returncode == 1:
+            print(r.stdout.strip())
+            rc = 1
+        else:
+            print("fuzz artifact %s did not reproduce through the deterministic oracle" % dst)
+            if rc == 0:
+                rc = 2
+    if execs == 0 and rc == 0:
+        rc = 2
+    print("fuzz %s: executed=%d cov=%d artifacts=%d" % (label, execs, cov, len(stats["artifacts"])))
+    return rc, stats
+
+
+results = []
+if pid in TARGETS:
+    t = TARGETS[pid]
+    results.append(campaign(t, t, os.path.join(ROOT, "harness", "fuzz", "seeds", t), runs, 600, {}))
+if pid not in NO_PROP and prop_runs > 0:
+    results.append(campaign("prop", "prop:" + pid, None, prop_runs, 64, {"VERIF_FUZZ_PROP": pid}))
+if not results:
+    sys.exit(0)
+rc = 1 if any(r == 1 for r, _ in results) else (2 if any(r == 2 for r, _ in results) else 0)
 ev = os.path.join(ROOT, "evidence", pid + ".json")
 try:
     e = json.load(open(ev))
-    e["coverage"]["fuzz_campaign"] = stats
-    e["coverage"]["evaluations"] += execs
+    e["coverage"]["fuzz_campaigns"] = [s for _, s in results]
+    e["coverage"]["evaluations"] += sum(s["executed_units"] for _, s in results)
     if rc == 1:
         e["violations"] = e.get("violations", 0) + 1
     json.dump(e, open(ev, "w"), indent=1, ensure_ascii=False)
 except Exception as ex:
     print("could not update evidence:", ex)
-print("fuzz %s: executed=%d cov=%d artifacts=%d" % (target, execs, cov, len(stats["artifacts"])))
 sys.exit(rc)
